@@ -1,7 +1,7 @@
 SPECIFICATION Spec
 CONSTANTS
-  Alphabet = {10, 32, 36, 39, 40, 41, 42, 102, 105, 123, 125}
-  N = 6
+  Alphabet = {10, 32, 36, 39, 40, 41, 42, 47, 101, 102, 105, 108, 115, 123, 125}
+  N = 5
   Prefixes <- PrefixesNone
 INVARIANTS Lossless OneEofLast NonEmptyNonBlankStart Emit
 PROPERTIES Progress
